@@ -24,7 +24,7 @@ CLAIMED = {
  "C20": dict(
    text="Lean proof that the model of natsort.Less is a strict total order on ALL byte strings (irreflexive, asymmetric, transitive, total) by refinement to a "
         "lexicographic order on injective token keys, and that a list therefore has exactly one sorted permutation (order of the input and choice of sorting "
-        "routine are irrelevant). Tied to the code by differential runs of natsort.Less / natsort.Strings and order-law / numeric-reading oracles on the real function.",
+        "routine are irrelevant); metadata definitions listed in any order translate to the same section (meta_defs_order_independent). Tied to the code by differential runs of natsort.Less / natsort.Strings and order-law / numeric-reading oracles on the real function.",
    note="Lean kernel + propext/Quot.sound/Classical.choice; model LlirModel/Natsort.lean hand-written (index pair abstracted to suffixes); sort.Sort assumed to return a sorted permutation.",
    technique="Lean 4 proof over a hand-written model + differential correspondence with the Go implementation", design="§4 C20"),
  "C18": dict(
@@ -74,7 +74,9 @@ CLAIMED = {
  "C17": dict(
    text="Lean proof for ID lists of any length: distinct explicit IDs are accepted and kept, duplicates are an error, handed-out IDs are the smallest unused ones in order "
         "(nextID spec, with the loop's termination proved), the result has no duplicates, and assignment is idempotent. Reference identity in parsed modules (forward refs, "
-        "cycles, distinct, inline, named-metadata merging, ascending order) is checked by an in-process pointer-identity oracle; its theorem lives in the resolver model (C04).",
+        "cycles, distinct, inline, named-metadata merging, ascending order) is checked by an in-process pointer-identity oracle; its theorem lives in the resolver model (C04). "
+        "On whole metadata sections at byte level (M-Meta): in EVERY section the parser accepts the definitions are strictly ascending by ID (meta_ids_unique) and every reference, at any "
+        "nesting depth or from named metadata, denotes exactly one definition (meta_refs_resolve); tied by byte-exact printing of constructed sections and a 15-mutant parser stream.",
    note="Lean kernel + propext/Quot.sound; model LlirModel/MetaIDs.lean hand-written; identity part tied by oracle, not by theorem here.",
    technique="Lean 4 proof over a hand-written model + differential correspondence with the Go implementation", design="§4 C17"),
  "C13": dict(
@@ -94,7 +96,7 @@ CLAIMED = {
    technique=T, design="§4 C04"),
  "C05": dict(
    text="Lean proof over M-Resolve that an undefined reference (type, comdat, global entity, metadata ID, local, label) or a duplicated definition makes translation fail for "
-        "every visiting order, that a blockaddress whose function or label is undefined (in a global, a metadata field, a body or a module-level uselistorder) is an error, that the undefined attribute group is accepted, and that the only outcomes are module or error. Tied by single-point fault injection on "
+        "every visiting order, that a blockaddress whose function or label is undefined (in a global, a metadata field, a body or a module-level uselistorder) is an error, that the undefined attribute group is accepted, and that the only outcomes are module or error; on real text: M-Core-3 function bodies (closedness of every accepted function, duplicate / undefined / mis-numbered locals are errors) and M-Meta metadata sections (undefined references at any depth and duplicated IDs are errors). Tied by single-point fault injection on "
         "generated modules (text and skeleton mutated together): model and parser must agree and the oracle demands error, never ok or panic. One panic on the unchanged "
         "tree (typed attribute on an undefined type) is a recorded finding; the alias-to-undefined-type panic was repaired by a fix commit.",
    note="Lean kernel + propext/Quot.sound; M-Resolve hand-written; fault injector in vlib/modgen.py trusted.", technique=T, design="§4 C05"),
@@ -104,8 +106,11 @@ CLAIMED = {
         "package-level state are not modelled.",
    note="Lean kernel + propext/Quot.sound; map order is quantified in the model, sampled on the implementation.", technique=T, design="§4 C12"),
  "C01": dict(
-   text="Partial. Lean proof of the print->parse round trip for three fragments: M-Core-3 (FUNCTION DEFINITIONS: any number of parameters and named / numbered blocks, 45 instruction and "
-        "terminator kinds — the integer binary and bitwise operations, icmp, load, store, select, the 13 conversions, phi, freeze, ret, br, conditional br, unreachable — over local values incl. forward references "
+   text="Partial. Lean proof of the print->parse round trip for five byte-level fragments: M-Whole (WHOLE MODULES: type definitions, global variables, function definitions and the metadata "
+        "section in one text, top-level splitter, cross-fragment checks: whole_roundtrip), M-Meta (the metadata section: numbered tuples with null / reference / string / typed-constant / nested-tuple "
+        "fields, distinct, named metadata: meta_roundtrip), M-Core-3 (FUNCTION DEFINITIONS: any number of parameters and named / numbered blocks, 73 instruction and "
+        "terminator rows — the integer and floating-point binary operations, icmp / fcmp with every predicate, load / store / alloca with an optional alignment, select, the 13 conversions, phi, freeze, "
+        "fneg, the vector element instructions, extractvalue / insertvalue with index paths, ret, br, conditional br, unreachable — over local values incl. forward references "
         "and nested constants; generic row-table reader proved to invert the printer, translation = asm/local.go: numbering, duplicates, undefined uses, label kinds, operand "
         "retyping), M-Core (opaque type definitions + integer globals: all names, widths, values, both literal "
         "notations) and M-Core-2 (identified struct type definitions with bodies of arbitrarily nested types; global variables / constants of ANY type initialised by integers "
@@ -116,7 +121,7 @@ CLAIMED = {
         "read input and printed output as the same module.",
    note="Lean kernel + propext/Quot.sound/Classical.choice; M-Core hand-written; llir/ll lexer+parser trusted to deliver the tokens; outside M-Core no theorem.", technique=T, design="§4 C01"),
  "C02": dict(
-   text="Partial. Lean proof for M-Core, M-Core-2 (struct type definitions with bodies, globals of any type, nested aggregate constants) and M-Core-3 (function definitions) that one parse+print step is a normal "
+   text="Partial. Lean proof for M-Core, M-Core-2 (struct type definitions with bodies, globals of any type, nested aggregate constants), M-Core-3 (function definitions), M-Meta (metadata sections) and M-Whole (whole modules) that one parse+print step is a normal "
         "form (canon idempotent, second parse identical, text token-identical); correspondence: y = print(parse(x)) accepted and print(parse(y)) == y on generated modules in "
         "canonical and non-canonical spellings (incl. split / repeated attribute groups) and on the corpus.",
    note="as C01.", technique=T, design="§4 C02"),
